@@ -24,6 +24,18 @@ def _strip_comments(src: str) -> str:
     return re.sub(r"--.*", "", src)
 
 
+_RUNNING = {}
+
+
+def prefetch(path):
+    """Start `lean <file>` in the background (it mostly waits for Mathlib's .olean files to be mapped)."""
+    path = Path(path)
+    lean = shutil.which("lean")
+    if lean is None or str(path) in _RUNNING or not path.exists():
+        return
+    _RUNNING[str(path)] = (subprocess.Popen([lean, str(path)], stdout=subprocess.PIPE, stderr=subprocess.STDOUT, text=True, cwd=path.parent), time.time())
+
+
 def check_lemmas(path: Path, theorems: dict[str, str], timeout_s: float = 900.0):
     """theorems: Lean name -> obligation name.  Returns static-obligation records."""
     res = []
@@ -51,7 +63,16 @@ def check_lemmas(path: Path, theorems: dict[str, str], timeout_s: float = 900.0)
         if r.returncode == 0:
             return undecided("lean accepted a false canary statement")
     try:
-        r = subprocess.run([lean, str(path)], capture_output=True, text=True, timeout=timeout_s, cwd=path.parent)
+        if str(path) in _RUNNING:
+            proc, t0 = _RUNNING.pop(str(path))
+            try:
+                out0, _ = proc.communicate(timeout=timeout_s)
+            except subprocess.TimeoutExpired:
+                proc.kill()
+                raise
+            r = subprocess.CompletedProcess(proc.args, proc.returncode, out0, "")
+        else:
+            r = subprocess.run([lean, str(path)], capture_output=True, text=True, timeout=timeout_s, cwd=path.parent)
     except subprocess.TimeoutExpired:
         return undecided(f"lean timed out after {timeout_s:.0f}s")
     out = r.stdout + r.stderr
